@@ -13,7 +13,7 @@ TRUSTED = ["F2PY wrapper blocks pass arrays of exactly the declared shapes; the 
            "division by zero, shift, float-to-int range, uninitialised read, output definedness; float division by zero and sqrt/asin domain "
            "are NOT in this class (IEEE inf/nan are not rejected by the sanitizers)"]
 ASSUMPTIONS = ["image sizes within the stated bounds (ns*nf <= 2^28 for the labelling kernels, <= INT_MAX elsewhere)"]
-NOT_YET = ["connectedpixels.c:bloboverlaps (a second disjoint-set layout)", "sparse_image.c:mask_to_coo and compress_duplicates (counting-sort prefix sums)",
+NOT_YET = ["connectedpixels.c:bloboverlaps (a second disjoint-set layout)", "sparse_image.c:compress_duplicates (two counting sorts)",
            "localmaxlabel.c:localmaxlabel (driver: hand-made thread split with unsynchronised reads, see the C13 finding)",
            "darkflat.c:reorder_u16_a32_a16 (addresses are running sums of a table)", "sparse_image.c:tosparse_u16_avx512 (intrinsics, not compiled here)",
            "cimaged11utils.c (wrappers of the OpenMP runtime and gettimeofday)"]
@@ -45,7 +45,7 @@ def asan_suite(ctx):
     for w in wrong:
         fails.append(dict(name=w))
     return dict(evaluations=len(calls), distinct_nontrivial=len(calls), failures=fails,
-                kernels=["mask_to_coo", "compress_duplicates", "localmaxlabel", "reorder_u16_a32_a16", "bloboverlaps"])
+                kernels=["compress_duplicates", "localmaxlabel", "reorder_u16_a32_a16", "bloboverlaps", "mask_to_coo (also under contract)"])
 
 
 def units(ctx):
